@@ -248,4 +248,44 @@ theorem C15_covered_sites2 :
     ¬ U2 "Bytes::slice out of range in to_token" ∧ ¬ U2 "Bytes::slice out of range (tag name)" := by
   simp [U2]
 
+
+/-! ### the side-conditions are not vacuous: mutated tables are rejected, with a witness -/
+
+def mutate (i : Nat) (f : StateDef → StateDef) : Table :=
+  { Gen.Syntax.table with states := Gen.Syntax.table.states.modify i f }
+
+/-- `comment_end_state`: `shift_comment_text_end_by(3)` instead of `2` in the `_` arm (would slice past the cursor) -/
+def mutShift : Table := mutate 45 fun sd => { sd with arms := sd.arms.map fun a =>
+  match a.pat with
+  | .any => ⟨.any, .seq ⟨[⟨.shiftCommentTextEndBy 3, false⟩], some (.reconsume 42)⟩⟩
+  | _ => a }
+
+set_option maxRecDepth 100000 in
+example : WfTable mutShift = true ∧ checkCert mutShift (computeCert mutShift) = false := by decide +kernel
+
+/-- `tag_name_state`: the `eof` arm emits the tag (raw range would end one past the input) -/
+def mutEofEmit : Table := mutate 31 fun sd => { sd with arms := sd.arms.map fun a =>
+  match a.pat with
+  | .eof => ⟨.eof, .seq ⟨[⟨.emitTag, true⟩], none⟩⟩
+  | _ => a }
+
+example : ArmsOKWitness mutEofEmit = [("tag_name_state", 3)] := by decide +kernel
+
+/-- `data_state`: the `eoc` arm reconsumes in `data_state` (an endless loop) -/
+def mutLoop : Table := mutate 2 fun sd => { sd with arms := sd.arms.map fun a =>
+  match a.pat with
+  | .eoc => ⟨.eoc, .seq ⟨[⟨.emitText, true⟩], some (.reconsume 2)⟩⟩
+  | _ => a }
+
+example : ReconsumeRanked mutLoop (computeRanks mutLoop) = false := by decide +kernel
+
+/-- `tag_open_state`: `create_start_tag` dropped (`finish_tag_name` would hit "Tag should exist") -/
+def mutNoCreate : Table := mutate 28 fun sd => { sd with arms := sd.arms.map fun a =>
+  match a.pat with
+  | .alpha => ⟨.alpha, .seq ⟨[⟨.startTokenPart, false⟩], some (.goto 31)⟩⟩
+  | _ => a }
+
+set_option maxRecDepth 100000 in
+example : checkCert mutNoCreate (computeCert mutNoCreate) = false := by decide +kernel
+
 end LolHtml.Thm.C15
